@@ -258,8 +258,12 @@ def check_affects(ctx, out):
         return None
 
     # insertion into the index of modified blocks
-    index_sites = [(bi, t) for bi, t in vb.calls() if callee_matches(t, r"HashMap::<K, V, S, A>::(entry|insert)$") and "blocks::BlockWithContext" in (t.get("arg_tys") or [""])[0]]
-    lookups = [(bi, t) for bi, t in vb.calls() if callee_matches(t, r"HashMap::<K, V, S, A>::(contains_key|get)$") and "blocks::BlockWithContext" in (t.get("arg_tys") or [""])[0]]
+    # the index of modified blocks: a map or a set keyed by (file, name)
+    def is_index(t):
+        a0 = (t.get("arg_tys") or [""])[0]
+        return re.search(r"(HashMap|HashSet|BTreeMap|BTreeSet)<\(std::path::PathBuf, std::string::String\)", a0) is not None
+    index_sites = [(bi, t) for bi, t in vb.calls() if callee_matches(t, r"(HashMap::<K, V, S, A>|BTreeMap::<K, V, A>)::(entry|insert)$|(HashSet::<T, S, A>|BTreeSet::<T, A>)::insert$") and is_index(t)]
+    lookups = [(bi, t) for bi, t in vb.calls() if callee_matches(t, r"(HashMap::<K, V, S, A>|BTreeMap::<K, V, A>)::(contains_key|get)$|(HashSet::<T, S, A>|BTreeSet::<T, A>)::contains$") and is_index(t)]
     for bi, t in index_sites:
         g = content_guard(bi)
         if g:
@@ -267,7 +271,7 @@ def check_affects(ctx, out):
         else:
             out.viol("C01.guard", "C01.guard|collect", ctx.where(vb, t["span"]),
                      "a block is added to the set of modified blocks on a path that is not guarded by `is_content_modified`: a block whose content the diff does not touch would satisfy references to it")
-        if callee_name(t).endswith("::insert"):
+        if callee_name(t).endswith("::insert") and "Map" in callee_name(t):
             out.viol("C01.key", "C01.key|insert-overwrite", ctx.where(vb, t["span"]),
                      "the index of modified blocks is filled with `insert`: two modified blocks with the same key replace each other; with keys that are not (file, name) pairs the verdict depends on iteration order")
     for bi, t in lookups:
@@ -367,10 +371,9 @@ def check_affects(ctx, out):
         for bi, t in pushes:
             good = False
             for br, vals, e in util.guards(ctx, vb, bi):
-                if e[0] == "call" and re.search(r"HashMap::<K, V, S, A>::contains_key$", e[1]):
+                # the guard is the lookup itself (`guards` reports `!x` as a test on x with swapped arms)
+                if e[0] == "call" and len(e) > 3 and e[3] == lbi:
                     good = vals == {0}
-                if e[0] == "un" and e[1] == "Not" and find_calls(e, r"HashMap::<K, V, S, A>::contains_key$"):
-                    good = 0 not in vals
             refloops = util.loop_of_next(ctx, vb, re.escape(pid.split("::")[-1]) if pid else "parse_affects")
             in_ref_loop = any(bi in (util.iter_region(vb, nb) | set(bl)) for h, bl, nb in refloops)
             if good and in_ref_loop:
@@ -409,7 +412,7 @@ def shared_state_affects(ctx, out, vb):
             if not any(d[1] not in blocks for d in vb.defs().get(l, [])):
                 continue
             ty = loc["ty"]
-            if shared.VIOL_MAP.search(ty) or re.search(r"HashMap<\(std::path::PathBuf, std::string::String\)", ty):
+            if shared.VIOL_MAP.search(ty) or re.search(r"(HashMap|HashSet|BTreeMap|BTreeSet)<\(std::path::PathBuf, std::string::String\)", ty):
                 continue
             if re.search(r"::Iter<|::IterMut<|::IntoIter<|std::iter::|::Split<", ty):
                 continue
